@@ -235,14 +235,22 @@ def r_C01visitors(root):
             r = call("visit_rule_param", v, node, list(kids_))
             okp = r[0] == "ret" and isinstance(r[1], tuple) and tuple(r[1]) == want_ and type(r[1][1]) is type(want_[1])
             rep("C22.n", "visit_rule_param", "[%s] in a meta-model with skipws=%s" % ("=".join(repr(k_) if i_ else k_ for i_, k_ in enumerate(kids_)), mm_skip), okp, "the rule modifier  %s  (meta-model: skipws=%s, ws=' \\t') becomes %s; documented %r - a modifier pins the rule's mode whatever the meta-model's default is (an imported grammar may be compiled into a meta-model with another default)" % (" ".join(map(str, kids_)), mm_skip, r[1] if r[0] == "ret" else desc(r), want_), props_=("C22", "C19"))
+    def params_of(v, pairs):
+        """visit_rule_params applied to what visit_rule_param makes of each modifier as written (the division of work between the two is theirs)"""
+        made = []
+        for k_, val_ in pairs:
+            r_ = call("visit_rule_param", v, node, [("skipws" if val_ else "noskipws")] if k_ == "skipws" else [k_, val_])
+            if r_[0] != "ret": return r_
+            made.append(r_[1])
+        return call("visit_rule_params", v, node, made)
     for kids_, what_ in (([("skipws", True), ("ws", " ")], {"skipws": True, "ws": " "}), ([("skipws", False)], {"skipws": False}), ([("ws", "\\t\\n ")], {"ws": "\n\t "}), ([("split", ".")], {"split": "."})):
         v, _c = new_visitor()
-        r = call("visit_rule_params", v, node, list(kids_))
+        r = params_of(v, kids_)
         okp = r[0] == "ret" and isinstance(r[1], dict) and set(r[1]) == set(what_) and all(type(r[1][k_]) is type(what_[k_]) and (sorted(r[1][k_]) == sorted(what_[k_]) if k_ == "ws" else r[1][k_] == what_[k_]) for k_ in what_)
         rep("C22.n", "visit_rule_params", "[%s]" % ", ".join("%s=%r" % x_ for x_ in kids_), okp, "the rule modifiers  %s  become %s; documented %r (ws written with the escapes \\t \\n \\r stands for those characters)" % (kids_, r[1] if r[0] == "ret" else desc(r), what_), props_=("C22", "C19"))
     for kids_ in ([("colour", "red")], [("ws", 5)], [("split", "")]):
         v, _c = new_visitor()
-        r = call("visit_rule_params", v, node, list(kids_))
+        r = params_of(v, kids_)
         rep("C22.n", "visit_rule_params", "invalid modifier %s" % (kids_,), r[0] == "raise" and str(r[1]).startswith("TextX"), "the rule modifiers  %s  %s; documented: a TextX error" % (kids_, desc(r)), props_=("C22", "C23"))
     # ---------------------------------------------------------------- link references  [Class|MatchRule|rrel]
     rrel_s = HS({".kind": "rrel tree"})
